@@ -837,7 +837,143 @@ Section View.
       replace (N.of_nat k - d) with (N.of_nat (k - N.to_nat d)) by lia.
       apply Hr; unfold j0; lia.
   Qed.
+
+  (** ** the degree ring of [window] slots *)
+  Definition dring_ok (k : nat) (ring : list N) : Prop :=
+    length ring = N.to_nat (window p) /\
+    forall d, 1 <= d -> d <= window p -> (N.to_nat d <= k)%nat ->
+      nth_opt ring (dring_slot p (N.of_nat k - d))
+      = option_map nlen (nth_opt g (k - N.to_nat d)).
+
+  Lemma dring_slot_lt x (ring : list N) :
+    length ring = N.to_nat (window p) -> window p <> 0 -> (dring_slot p x < length ring)%nat.
+  Proof.
+    intros -> Hw. unfold dring_slot.
+    pose proof (N.mod_lt x (window p) Hw). lia.
+  Qed.
+
+  Lemma dring_slot_neq a e :
+    0 < e -> e < window p -> dring_slot p (a + e) <> dring_slot p a.
+  Proof.
+    intros H1 H2 H. unfold dring_slot in H.
+    apply (mod_shift_neq a e (window p)); lia.
+  Qed.
+
+  Lemma dring_ok_step k cur ring :
+    nth_opt g k = Some cur -> dring_ok k ring ->
+    dring_ok (S k) (if window p =? 0 then ring
+                    else set_nth ring (dring_slot p (N.of_nat k)) (nlen cur)).
+  Proof.
+    intros Hk [Hl Hr].
+    destruct (window p =? 0) eqn:Ew.
+    { apply N.eqb_eq in Ew. split; [exact Hl|]. intros d H1 H2 H3. lia. }
+    apply N.eqb_neq in Ew.
+    split; [rewrite set_nth_length; exact Hl|].
+    intros d H1 Hw Hle.
+    destruct (N.eq_dec d 1) as [E|E].
+    - subst d. replace (N.of_nat (S k) - 1) with (N.of_nat k) by lia.
+      rewrite nth_opt_set_nth_eq by (apply dring_slot_lt; assumption).
+      change (N.to_nat 1) with 1%nat. cbn [Nat.sub]. rewrite Nat.sub_0_r, Hk. reflexivity.
+    - replace (N.of_nat (S k) - d) with (N.of_nat k - (d - 1)) by lia.
+      rewrite nth_opt_set_nth_neq.
+      + rewrite (Hr (d - 1)) by lia. do 2 f_equal. lia.
+      + replace (N.of_nat k) with (N.of_nat k - (d - 1) + (d - 1)) at 1 by lia.
+        apply dring_slot_neq; lia.
+  Qed.
+
+  Lemma view_dring_nodes : forall m k ring,
+    (k + m <= length g)%nat -> dring_ok k ring ->
+    dring_nodes St rd pos p m (N.of_nat k) ring (st k)
+    = Some (firstn m (skipn k scan_spec), st (k + m)).
+  Proof.
+    induction m as [|m IH]; intros k ring Hkm Hp.
+    - cbn [dring_nodes firstn]. rewrite Nat.add_0_r. reflexivity.
+    - destruct (nth_opt_lt g k) as [cur Hk]; [lia|].
+      cbn [dring_nodes].
+      rewrite (view_skip_record k cur).
+      + cbn [obind].
+        replace (N.of_nat k + 1) with (N.of_nat (S k)) by lia.
+        rewrite (IH (S k)); [|lia|apply dring_ok_step; assumption].
+        cbn [obind]. rewrite (skipn_nth_opt scan_spec k _ (scan_spec_nth k cur Hk)).
+        cbn [firstn].
+        replace (S k + m)%nat with (k + S m)%nat by lia. reflexivity.
+      + exact Hk.
+      + intros d rl Hs Hnz Hle Hrl.
+        destruct (Hview k cur Hk) as (d' & rl' & Hs' & _ & Hw & _).
+        rewrite Hs in Hs'. injection Hs' as <-.
+        unfold dring_lookup.
+        destruct (d =? 0) eqn:E0; [apply N.eqb_eq in E0; contradiction|].
+        destruct (N.of_nat k <? d) eqn:E2; [apply N.ltb_lt in E2; lia|].
+        cbn [orb]. destruct Hp as [_ Hr]. rewrite (Hr d) by lia. rewrite Hrl. reflexivity.
+  Qed.
+
+  Lemma dring_new_length : length (dring_new p) = N.to_nat (window p).
+  Proof. unfold dring_new. apply repeat_length. Qed.
+
+  Lemma view_offdeg_ring :
+    offdeg_ring St rd pos p (length g) (st 0) = Some scan_spec.
+  Proof.
+    unfold offdeg_ring.
+    change (dring_nodes St rd pos p (length g) 0 (dring_new p) (st 0))
+      with (dring_nodes St rd pos p (length g) (N.of_nat 0) (dring_new p) (st 0)).
+    rewrite (view_dring_nodes (length g) 0 (dring_new p)); [|lia|].
+    - cbn [obind skipn]. rewrite firstn_all2; [reflexivity|]. rewrite scan_spec_length. lia.
+    - split; [apply dring_new_length|]. intros d H1 H2 H3. lia.
+  Qed.
+
+  Lemma view_dring_prefill k j0 : forall fuel j ring,
+    (k <= length g)%nat ->
+    (j0 <= j)%nat -> (j <= k)%nat -> (k <= j0 + N.to_nat (window p))%nat ->
+    (k - j < fuel)%nat ->
+    length ring = N.to_nat (window p) ->
+    (forall i, (j0 <= i)%nat -> (i < j)%nat ->
+               nth_opt ring (dring_slot p (N.of_nat i)) = option_map nlen (nth_opt g i)) ->
+    exists ring', dring_prefill St rd seek p fuel (N.of_nat j) (N.of_nat k) ring = Some ring' /\
+      length ring' = N.to_nat (window p) /\
+      forall i, (j0 <= i)%nat -> (i < k)%nat ->
+                nth_opt ring' (dring_slot p (N.of_nat i)) = option_map nlen (nth_opt g i).
+  Proof.
+    induction fuel as [|f IH]; intros j ring Hk Hj0 Hjk Hw Hf Hl Hr; [lia|].
+    cbn [dring_prefill].
+    destruct (N.of_nat k <=? N.of_nat j) eqn:E.
+    - apply N.leb_le in E. exists ring. split; [reflexivity|]. split; [exact Hl|].
+      intros i H1 H2. apply Hr; lia.
+    - apply N.leb_gt in E.
+      destruct (nth_opt_lt g j) as [l Hlj]; [lia|].
+      rewrite (view_outdegree j l Hlj). cbn [obind].
+      replace (N.of_nat j + 1) with (N.of_nat (S j)) by lia.
+      assert (Hwz : window p <> 0) by lia.
+      apply IH; try lia.
+      + rewrite set_nth_length. exact Hl.
+      + intros i H1 H2. destruct (Nat.eq_dec i j) as [->|Hne].
+        * rewrite nth_opt_set_nth_eq by (apply dring_slot_lt; assumption).
+          rewrite Hlj. reflexivity.
+        * rewrite nth_opt_set_nth_neq; [apply Hr; lia|].
+          replace (N.of_nat j) with (N.of_nat i + N.of_nat (j - i)) by lia.
+          apply dring_slot_neq; lia.
+  Qed.
+
+  Lemma view_offdeg_from_ring fuel k :
+    (k <= length g)%nat -> (length g < fuel)%nat ->
+    offdeg_from_ring St rd seek pos p fuel (length g) (N.of_nat k) = Some (skipn k scan_spec).
+  Proof.
+    intros Hk Hf. unfold offdeg_from_ring.
+    set (j0 := (k - N.to_nat (N.min (window p) (N.of_nat k)))%nat).
+    replace (N.of_nat k - N.min (window p) (N.of_nat k)) with (N.of_nat j0) by (unfold j0; lia).
+    destruct (view_dring_prefill k j0 fuel j0 (dring_new p)) as (ring & Hp & Hl & Hr);
+      try (unfold j0; lia).
+    { apply dring_new_length. }
+    rewrite Hp. cbn [obind].
+    rewrite Hseek by exact Hk. cbn [obind]. rewrite Nat2N.id.
+    rewrite (view_dring_nodes (length g - k) k ring); [|lia|].
+    - cbn [obind]. rewrite firstn_all2; [reflexivity|].
+      rewrite skipn_length, scan_spec_length. lia.
+    - split; [exact Hl|]. intros d H1 H2 H3.
+      replace (N.of_nat k - d) with (N.of_nat (k - N.to_nat d)) by lia.
+      apply Hr; unfold j0; lia.
+  Qed.
 End View.
+
 
 
 (** * The encoder's bit stream, seen node by node *)
@@ -1046,6 +1182,21 @@ Proof.
   eapply view_iter_from with (sel := sel) (st := est le cs p g sel rest); solve_view.
 Qed.
 
+Theorem offdeg_ring_eq : S_offdeg_ring_eq.
+Proof.
+  intros le cs p g sel rest Hok Hinc Hv. unfold acc_offdeg_ring, offdeg_spec.
+  change (enc_stream le cs p g sel rest) with (est le cs p g sel rest 0) at 2.
+  eapply view_offdeg_ring with (sel := sel) (st := est le cs p g sel rest)
+    (seek := seek_bits (enc_offs le cs p g sel) (enc_stream le cs p g sel rest)); solve_view.
+Qed.
+
+Theorem offdeg_from_ring_eq : S_offdeg_from_ring_eq.
+Proof.
+  intros le cs p g sel rest k Hok Hinc Hv Hk. unfold acc_offdeg_from_ring, offdeg_spec.
+  rewrite enc_offs_length. cbn [Nat.sub]. rewrite Nat.sub_0_r.
+  eapply view_offdeg_from_ring with (sel := sel) (st := est le cs p g sel rest); solve_view.
+Qed.
+
 Theorem iter_from_ring_eq : S_iter_from_ring_eq.
 Proof.
   intros le cs p g sel rest k Hok Hinc Hv Hk. unfold acc_iter_from_ring.
@@ -1087,5 +1238,7 @@ Print Assumptions ra_fuel.
 Print Assumptions iter_from_eq.
 Print Assumptions offdeg_from_eq.
 Print Assumptions ra_merge_eq.
+Print Assumptions offdeg_ring_eq.
+Print Assumptions offdeg_from_ring_eq.
 Print Assumptions iter_from_ring_eq.
 Print Assumptions next_successors_eq.
